@@ -138,6 +138,7 @@ src_vals = z3.Function("json_validator_src_vals", ValS, StrVals)
 json_accepts = z3.Function("json_validator_accepts", ValS, TDict(TStr, TVal).sort(), z3.BoolSort())  # validator(data) does not raise
 json_text = z3.Function("json_dumps_schema", StrSet, StrVals, TStr.sort())
 merged_node = z3.Function("json_merged_node", ValS, ValS, ValS)  # genson merge of two property schemas
+required_witness = z3.Function("json_required_witness", ValS, TStr.sort())  # a name listed by a non-empty "required" keyword value
 
 K_PROPERTIES, K_REQUIRED, K_ID, K_SCHEMA = "properties", "required", "id", "$schema"
 
@@ -177,6 +178,7 @@ def to_schema_facts(st, s, b_props, b_req, has_req, b_meta):
         z3.ForAll([k], z3.And(props_names(pv)[k] == b_props.member[k], z3.Implies(b_props.member[k], props_nodes(pv)[k] == b_props.vals[k]))),
         s.member[R] == z3.And(has_req, b_req.n != 0),
         z3.ForAll([k], names_of(rv)[k] == b_req.member[k]),
+        z3.Implies(s.member[R], names_of(rv)[required_witness(rv)]),  # (the keyword is only emitted for a non-empty set: it lists at least one name)
         z3.ForAll([k], z3.Implies(z3.And(k != P, k != R), z3.And(s.member[k] == b_meta.member[k], z3.Implies(b_meta.member[k], s.vals[k] == b_meta.vals[k])))),
         # size: at least the number of the distinguished keywords it holds (the dict model only knows n >= 1 <=> some member)
         s.n >= z3.Sum(*[z3.If(s.member[lit(x)], 1, 0) for x in (K_PROPERTIES, K_REQUIRED, K_ID, K_SCHEMA)]),
@@ -201,7 +203,8 @@ class _JsonGrammarHooks:
                 c.member, c.vals, c.n = e.member, e.vals, e.n
             else:
                 c.member, c.n = z3.K(Str, z3.BoolVal(False)), z3.IntVal(0)
-        o.fields["has_req"] = False
+        o.fields["has_req"] = SV(z3.BoolVal(False), TBool)
+        o.fields["has_strategy"] = SV(z3.BoolVal(False), TBool)  # no root strategy before the first add_schema / add_object
         meta = st.heap[o.fields["meta"].id]
         st.assume(z3.And(z3.Not(meta.member[lit(K_PROPERTIES)]), z3.Not(meta.member[lit(K_REQUIRED)]), z3.Not(meta.member[lit(K_ID)]), meta.member[lit(K_SCHEMA)]))
         return ref
@@ -226,12 +229,16 @@ class _JsonGrammarHooks:
             return _builder(ex, args[0]).fields["props"]
         if q == MB + ".required" and args and _builder(ex, args[0]) is not None:
             b = _builder(ex, args[0])
-            hr = b.fields["has_req"]
-            t = hr if isinstance(hr, bool) else hr.term
-            if st.decide(t):
-                return b.fields["req"]
-            # no strategy / `_required is None`: a NEW empty set (updates of it are lost)
-            return st.alloc(SetObj(TStr, z3.K(Str, z3.BoolVal(False)), z3.IntVal(0)))
+            hs, hr = (x if isinstance(x, bool) else x.term for x in (b.fields["has_strategy"], b.fields["has_req"]))
+            if not st.decide(hs):
+                # no root strategy yet (IndexError branch): a NEW empty set (updates of it are lost; there is no property either)
+                return st.alloc(SetObj(TStr, z3.K(Str, z3.BoolVal(False)), z3.IntVal(0)))
+            if not st.decide(hr):
+                # `_required is None`: an empty set is ATTACHED to the strategy, so that its changes are not lost
+                c = st.heap[b.fields["req"].id]
+                c.member, c.n, c.is_empty_literal = z3.K(Str, z3.BoolVal(False)), z3.IntVal(0), False
+                b.fields["has_req"] = SV(z3.BoolVal(True), TBool)
+            return b.fields["req"]
         if q == JG + "._JSONGrammar__sync_required_names" or q.endswith("JSONGrammar.__sync_required_names"):
             bound, missing, defaults = ex.bind_params(fi, args, kwargs, lineno)
             return CtxGenV(fi, bound)
@@ -539,6 +546,9 @@ class _JsonStateHooks2:
             new = st.fresh_const("bprops", StrSet)
             st.assume(z3.ForAll([k], new[k] == z3.Or(old[k], pv_schema_props(args[0].term)[k])))
             st.ghost_set("json_bprops", z3.Store(h, recv.term, new))
+            # ... and its own required set becomes the one the schema lists (a builder refilled by __setstate__ is new: it tracked none)
+            hr = st.ghost_get("json_breq", BuilderHeap)
+            st.ghost_set("json_breq", z3.Store(hr, recv.term, z3.If(pv_schema_has_required(args[0].term), pv_schema_required(args[0].term), hr[recv.term])))
             ex.assumed.add("model:builder.add_schema(schema, True) adds the properties listed by the schema (instance-dictionary model)")
             return None
         if name == "pvpart.update" and len(args) == 1 and _is_pv(args[0]):
@@ -634,3 +644,89 @@ class _JsonGrammarHooks3:
 
 
 _install(_JsonGrammarHooks3)
+
+
+# ============================================================================ repaired source (0717736, 63aba35, 02afd7d, e774076, 034df8e)
+pv_schema_has_required = z3.Function("pv_schema_has_required", AttrS, z3.BoolSort())  # the pickled schema has a "required" keyword
+pv_schema_required = z3.Function("pv_schema_required", AttrS, StrSet)  # ... and the names it lists
+declare_ghost("json_breq", BuilderHeap)  # own required set of a schema builder held as an opaque value
+
+
+class PvReqView:
+    """``builder.required`` of a builder held as an opaque value."""
+
+    def __init__(self, builder_term):
+        self.builder = builder_term
+
+
+class _JsonRepairHooks:
+    def call_builtin(self, ex, name, args, kwargs, lineno, node=None):
+        st = ex.st
+        if name == "set" and len(args) == 1 and isinstance(args[0], SV) and args[0].ty == TVal and ex.frame.module.name == JG_MODULE:
+            # set(schema["required"]): the names the keyword lists
+            o = SetObj(TStr, names_of(args[0].term), st.fresh_int("reqn"))
+            o.ty = TSet(TStr)
+            for f in o.wf_facts(st):
+                st.assume(f)
+            return st.alloc(o)
+        return NotImplemented
+
+    def equals(self, ex, a, b, lineno):
+        """collections.abc.Set.__eq__ of a RequiredNames with a set: same elements."""
+        st = ex.st
+        for x, y in ((a, b), (b, a)):
+            if isinstance(x, Ref) and isinstance(y, Ref):
+                o, other = st.heap.get(x.id), st.heap.get(y.id)
+                if isinstance(o, PyObj) and o.cls == RN and getattr(o, "schema_key", None) == RN + "#json" and isinstance(other, SetObj):
+                    s = st.heap[o.fields["_RequiredNames__names"].id]
+                    if other.is_empty_literal:
+                        return SV(s.n == 0, TBool)
+                    k = z3.Const("k!rneq", Str)
+                    return SV(z3.ForAll([k], s.member[k] == other.member[k]), TBool)
+        return NotImplemented
+
+    def value_attr(self, ex, obj, attr, lineno):
+        if _is_pv(obj) and attr == "required" and ex.frame.module.name == JG_MODULE:
+            return PvReqView(obj.term)
+        if isinstance(obj, PvReqView) and attr == "clear":
+            return BoundMethod(obj, None, "pvreq.clear")
+        return NotImplemented
+
+    def call_method(self, ex, recv, name, args, kwargs, lineno):
+        if name == "pvreq.clear" and isinstance(recv, PvReqView):
+            # the live set of the root strategy is emptied (63aba35: a set is attached when there was none; without a strategy there is no own
+            # required set at all - the builder only gets one together with its strategy, see pvpart.add_schema)
+            st = ex.st
+            h = st.ghost_get("json_breq", BuilderHeap)
+            st.ghost_set("json_breq", z3.Store(h, recv.builder, z3.K(Str, z3.BoolVal(False))))
+            return None
+        return NotImplemented
+
+
+_install(_JsonRepairHooks)
+
+
+class _JsonRepairHooks2:
+    def compare(self, ex, op, a, b, lineno):
+        """collections.abc.Set order comparisons between a RequiredNames and a set."""
+        st = ex.st
+        if op not in ("Lt", "LtE", "Gt", "GtE") or not (isinstance(a, Ref) and isinstance(b, Ref)):
+            return NotImplemented
+
+        def members(v):
+            o = st.heap.get(v.id)
+            if isinstance(o, PyObj) and o.cls == RN and getattr(o, "schema_key", None) == RN + "#json":
+                return st.heap[o.fields["_RequiredNames__names"].id].member, True
+            if isinstance(o, SetObj):
+                return (z3.K(Str, z3.BoolVal(False)) if o.is_empty_literal else o.member), False
+            return None, False
+
+        (ma, ra), (mb, rb) = members(a), members(b)
+        if ma is None or mb is None or not (ra or rb):
+            return NotImplemented
+        k = z3.Const("k!rncmp", Str)
+        sub, sup = z3.ForAll([k], z3.Implies(ma[k], mb[k])), z3.ForAll([k], z3.Implies(mb[k], ma[k]))
+        return SV({"LtE": sub, "GtE": sup, "Lt": z3.And(sub, z3.Not(sup)), "Gt": z3.And(sup, z3.Not(sub))}[op], TBool)
+
+
+_install(_JsonRepairHooks2)
